@@ -91,7 +91,7 @@ def main(tier):
         for y in range(1972, 4095, 1 if not quick else 7):
             import datetime
             ts.add((datetime.date(y, 1, 1) - datetime.date(1970, 1, 1)).days * 86400)
-        for _ in range(300 if quick else 20000):
+        for _ in range(300 if quick else 200000):
             ts.add(rng.randrange(730 * 86400, 776000 * 86400))
         ts.update((2 ** 31 - 2, 2 ** 31 - 1, 2 ** 31, 2 ** 31 + 1, 2 ** 32, 2 ** 32 + 1))
         for zone, evn, lo in (("TAI", "Tai", 730 * 86400), ("GPS", "Gps", 3657 * 86400)):
@@ -118,7 +118,7 @@ def main(tier):
         pts += [365 * 86400, 800 * 86400, 20000 * 86400, 40000 * 86400 + 12345]
         pairs = set()
         for a in pts:
-            for _ in range(3 if quick else 12):
+            for _ in range(3 if quick else 40):
                 bb = rng.choice(pts)
                 if abs(bb - a) < 2 ** 31 - 100:
                     pairs.add((a, bb))
